@@ -11,7 +11,7 @@
 (*         inequality (soundness rule S2, bin/ratcheck.py)                  *)
 (*   cov : which clauses were evaluated non-vacuously on this line          *)
 (***************************************************************************)
-EXTENDS Integers, Sequences, FiniteSets, TLC, Json, IOUtils, Rat, SluStore, SluFactor, SluSolve, SluEquil, SluCond, SluOrder
+EXTENDS Integers, Sequences, FiniteSets, TLC, Json, IOUtils, Rat, SluStore, SluFactor, SluSolve, SluEquil, SluCond, SluOrder, SluMatch
 
 Tr == ndJsonDeserialize(IOEnv.TRACE)
 \* MODE = "light": storage / allocator clauses only (the numeric replay of the factorization is skipped;
@@ -657,6 +657,34 @@ GstrsVerdict(ev) ==
   IN [bad |-> bad \cup LedgerCls(ev, "_gstrs"), arb |-> {}, cov |-> (IF exact THEN {"C14.gstrs_exact_" \o tr \o "_nrhs" \o ToString(ev.nrhs)} ELSE {"C14.gstrs_other"})]
 
 (***************************************************************************)
+(* ?ldperm (C17) on the log domain: bijection with a nonzero diagonal,      *)
+(* maximal product, unit scaling (dual feasibility), arrays untouched,      *)
+(* structural singularity reported.                                         *)
+(***************************************************************************)
+MatchVerdict(ev) ==
+  LET n == ev.n  cplx == IsCplx(ev.ty)
+      dl == \A t \in 1..Len(ev.A0) : DLTok(ev.A0[t][3], cplx) /\ MagExp(ev.A0[t][3], cplx) # Z
+            /\ (cplx => (ZeroTok(ev.A0[t][3][1]) \/ ZeroTok(ev.A0[t][3][2])))          \* modulus of a pure real / imaginary entry is a power of two
+      W == [ij \in {<<ev.A0[t][1], ev.A0[t][2]>> : t \in 1..Len(ev.A0)} |->
+              MagExp(ev.A0[CHOOSE t \in 1..Len(ev.A0) : ev.A0[t][1] = ij[1] /\ ev.A0[t][2] = ij[2]][3], cplx)]
+      sing == StructSingular(W, n)
+      p == [i \in Ix0(n) |-> ev.perm[i + 1]]
+      pok == IsMatching(p, W, n)
+      u == [i \in Ix0(n) |-> ev.u_log2[i + 1]]
+      v == [i \in Ix0(n) |-> ev.v_log2[i + 1]]
+      integral == ev.dual_dev_micro <= 1000
+      bad == IF ~dl \/ n > 5 THEN {} ELSE
+             (IF sing /\ ev.ret = 0 THEN {"C17.structural_singularity_not_reported"} ELSE {})
+             \cup (IF ~sing /\ ev.ret # 0 THEN {"C17.nonsingular_reported_singular"} ELSE {})
+             \cup (IF ~sing /\ ev.ret = 0 /\ ~pok THEN {"C17.not_a_matching_with_nonzero_diagonal"} ELSE {})
+             \cup (IF ~sing /\ ev.ret = 0 /\ pok /\ Value(p, W, n) # MaxValue(W, n) THEN {"C17.product_not_maximal"} ELSE {})
+             \cup (IF ~sing /\ ev.ret = 0 /\ pok /\ ev.job = 5 /\ ~integral THEN {"C17.scaling_not_integral_on_log_domain"} ELSE {})
+             \cup (IF ~sing /\ ev.ret = 0 /\ pok /\ ev.job = 5 /\ integral /\ ~DualFeasible(u, v, p, W, n) THEN {"C17.scaling_not_unit"} ELSE {})
+      bad2 == IF ev.arrays_same # 1 \/ ev.values_same # 1 THEN {"C17.caller_arrays_modified"} ELSE {}
+  IN [bad |-> bad \cup bad2 \cup LedgerCls(ev, "_ldperm"), arb |-> (IF dl /\ n <= 5 THEN {} ELSE {"C17.float_slice"}),
+      cov |-> (IF dl /\ n <= 5 THEN {IF sing THEN "C17.structurally_singular" ELSE "C17.matching_checked"} ELSE {})]
+
+(***************************************************************************)
 (* Rejected calls (C18): the routine reports the position SluScreen!Screen  *)
 (* computes from the violated preconditions, every caller object is byte-   *)
 (* identical and no allocation is retained.                                 *)
@@ -682,6 +710,7 @@ Verdict(ev, pm, sc) ==
         [] ev.fn = "equ" -> EquVerdict(ev)
         [] ev.fn = "lacon" -> LaconVerdict(ev)
         [] ev.fn = "order" -> OrderVerdict(ev, sc)
+        [] ev.fn = "ldperm" -> MatchVerdict(ev)
         [] ev.fn = "trsv" -> TrsvVerdict(ev)
         [] ev.fn = "gemv" -> GemvVerdict(ev)
         [] ev.fn = "gemm" -> GemmVerdict(ev)
